@@ -43,6 +43,8 @@ pub fn sem_jobs(thorough: bool, finish: bool) -> Vec<Job> {
                 v.push(job(Cfg::new(fl, &[("fair", fair), ("permits", 0), ("k", 3), ("sizes", bits(&[1, 2])), ("cap", 3), ("rels", 1)]), finish, false));
             }
             if fi == 0 {
+                // releasers dropped by the unwinder (their holder panics)
+                v.push(job(Cfg::new(fl, &[("fair", fair), ("permits", 1), ("k", 2), ("sizes", bits(&[1, 2])), ("cap", 3), ("rels", 2), ("unwind", 1)]), finish, thorough));
                 // a request that does not fit into 32 bits (letter 7 = 2^32 + 2 permits) next to small ones
                 v.push(job(Cfg::new(fl, &[("fair", fair), ("permits", 3), ("k", 2), ("sizes", bits(&[2, 7])), ("cap", 5), ("rels", 1)]), finish, thorough));
             }
@@ -62,6 +64,10 @@ pub fn mutex_jobs(thorough: bool, finish: bool) -> Vec<Job> {
         for fair in [1, 0] {
             v.push(job(Cfg::new(fl, &[("fair", fair), ("k", if thorough { 5 } else { 4 })]), finish, thorough));
         }
+    }
+    // guards dropped by the unwinder (their holder panics)
+    for fair in [1, 0] {
+        v.push(job(Cfg::new("mutex.local", &[("fair", fair), ("k", 3), ("unwind", 1)]), finish, thorough));
     }
     if thorough {
         v.push(job(Cfg::new("mutex.local", &[("fair", 1), ("k", 7)]), finish, true));
@@ -329,7 +335,7 @@ pub fn miri_jobs(prop: &str) -> Vec<Job> {
 
 pub fn all_jobs(thorough: bool) -> Vec<Job> {
     let mut v = vec![];
-    v.extend(burst_jobs(thorough, &[0, 1, 2, 3, 4, 5, 6, 7, 8]));
+    v.extend(burst_jobs(thorough, &[0, 1, 2, 3, 4, 5, 6, 7, 8, 9]));
     v.extend(wide_jobs(thorough));
     v.extend(mutex_jobs(thorough, false));
     v.extend(sem_jobs(thorough, false));
@@ -369,7 +375,7 @@ pub fn plan(prop: &str, tier: &str) -> Vec<Job> {
         }
         "C15" => {
             let mut v = timer_jobs(t);
-            v.extend(burst_jobs(t, &[7]));
+            v.extend(burst_jobs(t, &[7, 9]));
             // value sweep of delay(d): every whole millisecond up to 20 s, sub-millisecond
             // remainders, the neighbourhood of every power of two up to 2^70 ms
             v.push(job(Cfg::new("timer.sweep.local", &[("x", 0)]), false, t));
